@@ -77,11 +77,9 @@ def make_content(rng, kind, eff_enc, own_diff_enc=None):
             opts.append(('mimetype', rng.choice(['text/plain', 'text/markdown'])))
         # lone \r inside a unix text or \n in the first line would change detection: lines have neither
         # a BOM character decodes away only for the BOM codecs; for others it stays in the text
-        exp_text = text
-        if with_bom and bom:
-            dec = (bom + spec.bomfree('x', enc)).decode(enc)
-            if dec != 'x':
-                exp_text = dec[:-1] + text
+        # the specification's reading decodes the (unindented) bytes in the section's encoding: for the BOM-aware
+        # codecs a leading U+FEFF is the byte-order mark and is not part of the text
+        exp_text = (bom + b''.join(body_lines)).decode(enc)
         return body, opts, dict(text=exp_text), len(body_lines)
     if kind == 'meta':
         enc = eff_enc
